@@ -475,7 +475,8 @@ def program_body(program, max_queue_size, faults, FakeDisk):
 
 
 def check_execution(x, program, viol, outcomes, info):
-    case = dict(part='B', program=[list(o) for o in program], choices=x.choices, max_queue_size=info['mq'], faults=info['faults'])
+    case = dict(part='B', program=[list(o) for o in program], choices=x.choices, max_queue_size=info['mq'], faults=info['faults'],
+                lines=bool(info.get('lines')))
     fault = bool(x.result and x.result.get('fault')) or any(k == 'fault' for (_t, k, _g) in x.log)
     sfx = ':after-fault' if fault else ''
 
@@ -496,15 +497,25 @@ def check_execution(x, program, viol, outcomes, info):
     outcomes.add(str(r['obs']))
 
 
-def explore_program(program, mq, faults, bound, max_exec=None):
+def line_filter(code):
+    """Code whose every source line is a scheduling point in the 'lines' units: all of tenpy/tools/thread.py (Worker) and
+    the methods of ThreadedStorage - the only code that runs concurrently with the worker thread."""
+    fn = code.co_filename
+    if fn.endswith('tenpy/tools/thread.py'):
+        return True
+    return fn.endswith('tenpy/tools/cache.py') and code.co_qualname.startswith('ThreadedStorage.')
+
+
+def explore_program(program, mq, faults, bound, max_exec=None, lines=False):
     from vk import sched
     patch_thread_module()
     FakeDisk = make_fakedisk()
     viol = []
     outcomes = set()
-    info = dict(mq=mq, faults=faults)
+    info = dict(mq=mq, faults=faults, lines=lines)
     body = program_body(program, mq, faults, FakeDisk)
-    stats = sched.explore(body, bound, lambda x: check_execution(x, program, viol, outcomes, info), max_exec=max_exec)
+    stats = sched.explore(body, bound, lambda x: check_execution(x, program, viol, outcomes, info), max_exec=max_exec,
+                          horizon=20000 if lines else 4000, trace_filter=line_filter if lines else None)
     return stats, viol, outcomes
 
 
@@ -544,7 +555,8 @@ def programs(length, rich):
 
 
 def run_partB(unit):
-    _, progs, mq, faults, bound, cap = unit
+    _, progs, mq, faults, bound, cap = unit[:6]
+    lines = len(unit) > 6 and bool(unit[6])
     ev = 0
     viol = []
     keys = set()
@@ -554,17 +566,17 @@ def run_partB(unit):
     sample = None
     for prog in progs:
         prog = tuple(tuple(tuple(x) if isinstance(x, list) else x for x in o) for o in prog)
-        stats, v, outs = explore_program(prog, mq, faults, bound, max_exec=cap)
+        stats, v, outs = explore_program(prog, mq, faults, bound, max_exec=cap, lines=lines)
         ev += stats['executions']
         cp += stats['choice_points']
         capped = capped or stats['capped']
         viol.extend(v[:3])
         if stats['executions'] > 1:
-            keys.add('B:%r:mq%d:f%d' % (prog, mq, faults))
+            keys.add('B:%r:mq%d:f%d%s' % (prog, mq, faults, ':lines' if lines else ''))
         outcomes.update('B:%r:%s' % (prog, o) for o in outs)
         sample = dict(part='B', program=[list(o) for o in prog], max_queue_size=mq, faults=faults, bound=bound, executions=stats['executions'])
     return dict(evaluations=ev, traces=ev, transitions=cp, states=ev, violations=viol[:15], keys=keys, outcomes=outcomes,
-                samples=[sample] if sample else [], capped=capped, extra=dict(B_schedules=ev, B_choice_points=cp))
+                samples=[sample] if sample else [], capped=capped, extra=dict(B_line_granular_schedules=ev, B_line_granular_choice_points=cp) if lines else dict(B_schedules=ev, B_choice_points=cp))
 
 
 # ------------------------------------------------------------------------------------------------ Part C
@@ -744,6 +756,24 @@ def units(tier, seed, label):
     for mq in (1, 2):
         for a in range(0, len(pk), 30):
             us.append(('B', [list(map(list, p)) for p in pk[a:a + 30]], mq, 0, 1 if quick else 2, None))
+    # Part B, line-granular: every source line of Worker / ThreadedStorage is a scheduling point (sys.settrace), so
+    # that unsynchronised accesses between two queue/event operations are interleaved too
+    p2 = programs(2, rich=False)
+    for mq in (1, 2):
+        for faults in (0, 2):
+            # quick: two deviations (e.g. one injected fault + one preemption at a line) for max_queue_size=1 with faults
+            b = 2 if (not quick or (mq == 1 and faults == 2)) else 1
+            n = 2 if b == 2 else 8
+            for a in range(0, len(p2), n):
+                us.append(('B', [list(map(list, p)) for p in p2[a:a + n]], mq, faults, b, None, True))
+    pk4 = programs_single_key((4,) if quick else (4, 5))
+    for a in range(0, len(pk4), 20):
+        us.append(('B', [list(map(list, p)) for p in pk4[a:a + 20]], 1, 0, 1, None, True))
+    if not quick:
+        p3 = programs(3, rich=False)
+        for mq in (1, 2):
+            for a in range(0, len(p3), 40):
+                us.append(('B', [list(map(list, p)) for p in p3[a:a + 40]], mq, 0, 1, None, True))
     # Part C
     for op in event_ops(1):
         if op[0].startswith('connect'):
@@ -809,9 +839,10 @@ def _replay(case):
         body = program_body(prog, case['max_queue_size'], case['faults'], FakeDisk)
         obs = []
         for _ in range(2):  # replay the recorded schedule twice: identical observations required
-            x = sched.run_once(body, case['choices'])
+            lines = bool(case.get('lines'))
+            x = sched.run_once(body, case['choices'], 20000 if lines else 4000, line_filter if lines else None)
             v = []
-            check_execution(x, prog, v, set(), dict(mq=case['max_queue_size'], faults=case['faults']))
+            check_execution(x, prog, v, set(), dict(mq=case['max_queue_size'], faults=case['faults'], lines=lines))
             obs.append((x.log, [vv['key'] for vv in v]))
             viol = v
         if obs[0] != obs[1]:
